@@ -34,8 +34,7 @@ use sha2::{Digest, Sha256};
 use crate::{
     dataplane_path::standard::{
         mac::{
-            ForwardingKey, HopMacCalculate, HopMacInput, HopMacInputSource,
-            algo::{mac_beta_step, mac_chaining_beta},
+            ForwardingKey, HopMacCalculate, HopMacInput, HopMacInputSource, algo::mac_chaining_beta,
         },
         model::HopField,
         types::{HopFieldFlags, HopFieldMac, exp_time_to_duration},
@@ -641,15 +640,10 @@ impl AsEntry {
                 .hop_field
                 .calculate_mac(mac_beta, path_segment.info.timestamp, mac_key);
 
-        // Peer hop fields chain onto this AS's own hop field, i.e. they are authenticated with the
-        // beta value that follows it. This is what routers verify on a peering path, and what the
-        // path combinator initializes the segment ID of a peering segment to.
-        let peer_mac_beta = mac_beta_step(mac_beta, *self.hop_entry.hop_field.mac.as_bytes());
-
         for peer in &mut self.peer_entries {
             peer.hop_field.mac =
                 peer.hop_field
-                    .calculate_mac(peer_mac_beta, path_segment.info.timestamp, mac_key);
+                    .calculate_mac(mac_beta, path_segment.info.timestamp, mac_key);
         }
     }
 }
